@@ -388,7 +388,7 @@ Proof.
   - right; right; left. auto.
   - right; right; right. destruct (find_enum_code _ _ _ Hf) as (t & Ht & <- & Hcode).
     pose proof codes_ge_8 as T. rewrite forallb_forall in T. specialize (T t Ht). rewrite Hcode in T.
-    split; [lia|]. exists (ec_of t). split; [exact Hf|]. exact (proj2 (proj2 (proj2 (proj2 (enum_roundtrip t k v false Ht Hin))))).
+    split; [lia|]. exists (ec_of t). split; [exact Hf|]. exact (proj2 (proj2 (proj2 (proj2 (proj2 (enum_roundtrip t k v false Ht Hin)))))).
 Qed.
 
 (* every element text is a piece of the input *)
